@@ -3,17 +3,48 @@ import netlib
 from netlib import ex, ratio
 
 
+import random as _real_random
+
+
+class _ScriptedRandom(_real_random.Random):
+    """A Random instance whose uniform()/random() return the scripted draw of the current arrival."""
+
+    def __init__(self, owner):
+        super().__init__(0)
+        self.owner = owner
+
+    def random(self):
+        return self.owner.next_unit()
+
+    def uniform(self, a, b):
+        return a + (b - a) * self.owner.next_unit()
+
+
 class Draws:
-    """Stand-in for the `random` module inside onl.netdev.red_port: scripted uniform draws."""
+    """Stand-in for the `random` module inside onl.netdev.red_port: everything the real module offers, except that
+    uniform()/random() -- of the module and of any Random instance created through it -- return scripted draws."""
 
     def __init__(self):
         self.cur = None
         self.used = None
+        self._inst = _ScriptedRandom(self)
 
-    def uniform(self, a, b):
+    def next_unit(self):
         un, ud = self.cur if self.cur and self.cur[0] >= 0 else (1, 2)
         self.used = (un, ud)
-        return a + (b - a) * (un / ud)
+        return un / ud
+
+    def uniform(self, a, b):
+        return a + (b - a) * self.next_unit()
+
+    def random(self):
+        return self.next_unit()
+
+    def Random(self, *a, **k):
+        return self._inst
+
+    def __getattr__(self, name):
+        return getattr(_real_random, name)
 
 
 def run_one(sc):
@@ -34,7 +65,12 @@ def run_one(sc):
             "an": 0, "ad": 1, "x": 0, "y": 0, "stamp": -1, "type": ""}
     try:
         if cfg["red"]:
-            red_mod.random = draws
+            if sc.get("rawrandom"):
+                # reproducibility scenarios (C03): the element draws from the real generator, seeded by the scenario
+                red_mod.random = _real_random
+                _real_random.seed(sc["rawrandom"])
+            else:
+                red_mod.random = draws
             port = REDPort(env, rate, cfg["maxth"], cfg["minth"], cfg["pn"] / cfg["pd"], elid, cfg["qlimit"],
                            weight_factor=cfg["w"], limit_bytes=(cfg["mode"] == 1))
         else:
